@@ -14,7 +14,7 @@ from typing import Any, Dict, List, Optional, Tuple
 
 import sympy as sp
 
-from ..core import AnalysisError, Ctx, calls_in, dotted, norm, parent, walk_ordered
+from ..core import enclosing, AnalysisError, Ctx, calls_in, dotted, norm, parent, walk_ordered
 from ..elements import registered_elements
 from ..model import get_model
 from ..numeric import RepoInterp, canon
@@ -407,8 +407,19 @@ def _order(ctx: Ctx, model, impl: str, mod: str) -> None:
         idx = {}
         for name in ("_add_resistance_to_A_matrix", "_add_capacitance_to_A_matrix", "_add_inductance_to_A_matrix", "_add_kth_variables_to_A_matrices"):
             fi = model.fi(mod, name)
-            cols = {norm(n.targets[0].slice.elts[1]) for n in walk_ordered(fi.node) if isinstance(n, ast.Assign) and isinstance(n.targets[0], ast.Subscript)
-                    and isinstance(n.targets[0].slice, ast.Tuple)}
+            from ..prov import Resolver as _Res2
+            _r2 = _Res2(fi.node)
+            cols = set()
+            for n in walk_ordered(fi.node):
+                if isinstance(n, ast.Assign) and isinstance(n.targets[0], ast.Subscript) and isinstance(n.targets[0].slice, ast.Tuple):
+                    c_ = n.targets[0].slice.elts[1]
+                    if isinstance(c_, ast.Slice):
+                        # a block of columns lo:hi written at once: the k-th time constant (k = 0..n-1) lands in column lo + k
+                        lo = _r2.text(c_.lower, n).replace(" ", "") if c_.lower is not None else "0"
+                        hi = _r2.text(c_.upper, n).replace(" ", "") if c_.upper is not None else ""
+                        cols.add("i + 1" if (lo, hi) in (("1", "len(taus)+1"), ("1", "1+len(taus)"), ("1", "taus.size+1"), ("1", "taus.shape[0]+1")) else f"{lo}:{hi}")
+                    else:
+                        cols.add(norm(c_))
             idx[name] = cols
         ctx.instance("R7.3", f"matrix_inversion column positions {idx}")
         if idx == {"_add_resistance_to_A_matrix": {"0"}, "_add_capacitance_to_A_matrix": {"-2"}, "_add_inductance_to_A_matrix": {"-1"}, "_add_kth_variables_to_A_matrices": {"i + 1"}}:
@@ -422,10 +433,12 @@ def _rhs(ctx: Ctx, model) -> None:
     bv = model.fi(LS, "_add_values_to_b_vector")
     ctx.instance("R7.2", "least_squares b vector: blocks of X_exp = Z_exp**(-1 if admittance else 1)")
     got = {}
+    from ..prov import Resolver
+    _R = Resolver(bv.node)  # hoisted locals (X_exp = Z_exp ** …) are expanded to their definitions
     for n in walk_ordered(bv.node):
         if isinstance(n, ast.Assign) and isinstance(n.targets[0], ast.Subscript) and norm(n.targets[0].value) == "b":
             iff = parent(n)
-            got[(norm(iff.test) if isinstance(iff, ast.If) and n in iff.body else "else", norm(n.targets[0].slice).replace(" ", ""))] = norm(n.value)
+            got[(norm(iff.test) if isinstance(iff, ast.If) and n in iff.body else "else", norm(n.targets[0].slice).replace(" ", ""))] = _R.text(n.value, n)
     X = "(Z_exp ** (-1 if admittance else 1))"
     want = {("test == 'complex'", "0:m//2"): f"{X}.real", ("test == 'complex'", "m//2:"): f"{X}.imag", ("test == 'real'", "0:m"): f"{X}.real", ("else", "0:m"): f"{X}.imag"}
     if got == want:
@@ -434,8 +447,22 @@ def _rhs(ctx: Ctx, model) -> None:
         ctx.violation("R7.2", "least_squares:b-vector", LS, bv.node, f"b vector blocks {got} do not pair the real/imaginary part of the immittance with the matching rows of A")
     sc = model.fi(MI, "_scale_A_matrices")
     ctx.instance("R7.2", "matrix_inversion: every column of A_re and A_im is divided by |X_exp|, and so are the right-hand sides")
-    src = norm(sc.node)
-    ok = "A_re[:, i] /= abs_X_exp" in src and "A_im[:, i] /= abs_X_exp" in src and "range(A_re.shape[1])" in src
+    from ..prov import Resolver as _Res
+    _rs = _Res(sc.node)
+    ok = True
+    for M in ("A_re", "A_im"):
+        divs = [n for n in walk_ordered(sc.node) if isinstance(n, ast.AugAssign) and isinstance(n.op, ast.Div)
+                and norm(n.target.value if isinstance(n.target, ast.Subscript) else n.target) == M]
+        good_m = False
+        for dv in divs:
+            by = _rs.text(dv.value, dv).replace(" ", "")
+            if isinstance(dv.target, ast.Subscript):
+                lp = enclosing(dv, ast.For)
+                good_m = good_m or (by == "abs_X_exp" and norm(dv.target.slice).replace(" ", "").strip("()") in (":,i",) and lp is not None
+                                    and norm(lp.iter).replace(" ", "") in (f"range({M}.shape[1])", "range(A_re.shape[1])", "range(A_im.shape[1])"))
+            else:
+                good_m = good_m or by in ("abs_X_exp.reshape(-1,1)", "abs_X_exp[:,None]", "abs_X_exp[:,newaxis]", "abs_X_exp.reshape((-1,1))")
+        ok = ok and good_m and len(divs) == 1
     for name, rhs in (("_complex_test", ["X_exp.real / abs_X_exp", "X_exp.imag / abs_X_exp"]), ("_real_test", ["X_exp.real / abs_X_exp"]), ("_imaginary_test", ["X_exp.imag / abs_X_exp"])):
         t = norm(model.fi(MI, name).node)
         ok = ok and all(r in t for r in rhs) and "abs_X_exp: NDArray[float64] = abs(X_exp)" in t
